@@ -9,8 +9,10 @@ CONSTANTS
   BatchDisabled = FALSE
   FixNotif = FALSE
   FixNonRequest = FALSE
-INIT Init
-NEXT Next
-VIEW view
+  FixLongWs = FALSE
+  FarChoices = {FALSE}
+INIT TableInit
+NEXT TableNext
+
 INVARIANTS TypeOK PShape POnePerEntry PResponses PTopLevel PInvocations PInFlight
 CHECK_DEADLOCK FALSE
